@@ -57,7 +57,7 @@ class Prop:
             "evaluation.  non-trivial = at least 3 value-returning requests with at least one non-zero, non-sentinel "
             "result that needed >= 2 terms; distinct = distinct sha256 of the event log")
     probes = ["k2", "k3", "k4", "herm_adjpair", "herm_sandwich", "herm_nonadjoint", "domain_float", "domain_tracer",
-              "result_one", "result_zero", "result_value", "multi_term_result", "default_operator", "factor_element_popped", "product_element_popped", "discipline_checked", "discipline_checked_3plus", "highest_order_checked", "highest_order_truth_checked",
+              "result_one", "result_zero", "result_value", "multi_term_result", "default_operator", "factor_is_product_with_own_eval", "view_factor_shifted", "factor_element_popped", "product_element_popped", "discipline_checked", "discipline_checked_3plus", "highest_order_checked", "highest_order_truth_checked",
               "op_array", "op_view", "repeat_cached", "op_mul", "op_rmul", "known0_pattern", "view_factor", "twin_product", "same_object_factors", "late_eval_factor", "tiny_scale", "dynamic_discipline_checked", "factor_chain_dep", "family_R", "recurrent_W1", "recurrent_W2", "recurrent_W3", "recurrent_compared", "known_finding_signature_hits"]
     components_real = ["pymablock.series.cauchy_dot_product, product_by_order, BlockSeries"]
     components_stub = ["factor series eval callbacks (simulator-owned tables, call log)", "element multiplication wrapper (logging)",
@@ -340,6 +340,8 @@ class Prop:
         cap = {1: 4, 2: 3, 3: 2}[ninf]
         case = {"K": K, "ninf": ninf, "dims": dims, "herm": herm, "domain": domain, "op": opname, "factors": factors,
                 "sizes": [r.choice([1, 2]) for _ in range(3)], "cap": cap}
+        if r.random() < 0.08:
+            case["product_factor"] = r.randrange(K)
         if domain == "float" and r.random() < 0.3:
             # the documented default: no operator given (matrix multiplication), elements of the array types the library itself uses
             case["default_op"] = True
@@ -352,7 +354,7 @@ class Prop:
             dims = case["dims"]
         if r.random() < 0.12:
             # a factor handed over as a finite-index *view* of the caller's series (full slices / permutation-free lists)
-            case["view_factor"] = [r.randrange(K), r.choice(["ss", "ls", "sl"])]
+            case["view_factor"] = [r.randrange(K), r.choice(["ss", "ls", "sl", "off", "perm", "off", "perm"])]
         # schedule
         orders = [n for n in itertools.product(range(MAXO[ninf] + 1), repeat=ninf) if sum(n) <= cap]
         ops = []
@@ -598,8 +600,41 @@ class Prop:
             bump("same_object_factors")
         roots = list(factors)  # the caller's own series (a factor may be handed over as a view of one)
         vf = case.get("view_factor")
-        if vf and vf[0] < K:
+        if vf and vf[0] < K and vf[1] in ("off", "perm") and not case.get("same_object"):
+            # the factor is a view that does not start at the first block row of the caller's series ("off": one more leading
+            # row, declared absent at zeroth order) or takes the rows in reversed order ("perm"); the caller's declared zeros
+            # sit at the positions of *its* series
             k, kind = vf
+            inner = make_eval(k)
+            nrows = dims[k] + (1 if kind == "off" else 0)
+            perm = list(range(dims[k]))[::-1]
+            row_of = (lambda p: p - 1 if p >= 1 else None) if kind == "off" else (lambda p: perm.index(p))
+
+            def parent_eval(*index, inner=inner, row_of=row_of):
+                index = tuple(int(i) for i in index)
+                i_ = row_of(index[0])
+                if i_ is None:
+                    return zero
+                return inner(i_, *index[1:])
+
+            zo_ = (0,) * ninf
+            pdata = {}
+            old = factors[k]._data
+            for (i_, j_, *n_), v_ in list(old.items()):
+                p_ = i_ + 1 if kind == "off" else perm[i_]
+                pdata[(p_, j_, *n_)] = v_
+            if kind == "off":
+                for j_ in range(dims[k + 1]):
+                    pdata[(0, j_, *zo_)] = zero
+            parent = BlockSeries(eval=parent_eval, data=pdata, shape=(nrows, dims[k + 1]), n_infinite=ninf, name=NAMES[k] + "_whole")
+            roots[k] = parent
+            factors[k] = parent[1:, :] if kind == "off" else parent[perm, :]
+            bump("view_factor")
+            bump("view_factor_shifted")
+        elif vf and vf[0] < K:
+            k, kind = vf
+            if kind in ("off", "perm"):
+                kind = "ss"
             rows = list(range(dims[k])) if kind[0] == "l" else slice(None)
             cols = list(range(dims[k + 1])) if kind[1] == "l" else slice(None)
             factors[k] = factors[k][rows, cols]
@@ -609,6 +644,19 @@ class Prop:
             mlog[0] += 1
             events.append(("m",))
             return base(a, b)
+
+        pf = case.get("product_factor")
+        if pf is not None and pf < K and not vf and not case.get("same_object") and herm == "none":
+            # a factor that is itself a product series whose eval the caller replaced afterwards (the library does the same
+            # to its own products): the outer product has to read *its* elements
+            op_arg = {} if case.get("default_op") else {"operator": oper}
+            Xs = BlockSeries(eval=lambda *index: zero, shape=(dims[pf], 1), n_infinite=ninf, name="X_sub")
+            Ys = BlockSeries(eval=lambda *index: zero, shape=(1, dims[pf + 1]), n_infinite=ninf, name="Y_sub")
+            fk = cauchy_dot_product(Xs, Ys, **op_arg)
+            fk.eval = make_eval(pf)
+            factors[pf] = fk
+            roots[pf] = fk
+            bump("factor_is_product_with_own_eval")
 
         declared = herm != "none"
         # a second product over the *same factor objects* with the opposite operator, alive at the same time
